@@ -48,24 +48,47 @@ type rgbSpace struct {
 	r, g, b, w ciexyy.Color
 	toXYZ      func(r, g, b float32) ciexyz.Color
 	fromXYZ    func(c ciexyz.Color) (float32, float32, float32)
+	// toXYZvia: a colour value obtained from ColorFromXYZ(from), its components then set to
+	// (r, g, b): a colour is its three components, wherever the value came from
+	toXYZvia func(from ciexyz.Color, r, g, b float32) ciexyz.Color
 }
 
 var rgbSpaces = []rgbSpace{
 	{"srgb", srgb.PrimaryRed, srgb.PrimaryGreen, srgb.PrimaryBlue, srgb.StandardWhitePoint,
 		func(r, g, b float32) ciexyz.Color { return srgb.ColorFromLinear(r, g, b).ToXYZ() },
-		func(c ciexyz.Color) (float32, float32, float32) { x := srgb.ColorFromXYZ(c); return x.R, x.G, x.B }},
+		func(c ciexyz.Color) (float32, float32, float32) { x := srgb.ColorFromXYZ(c); return x.R, x.G, x.B },
+		func(from ciexyz.Color, r, g, b float32) ciexyz.Color {
+			x := srgb.ColorFromXYZ(from)
+			x.R, x.G, x.B = r, g, b
+			return x.ToXYZ()
+		}},
 	{"adobergb", adobergb.PrimaryRed, adobergb.PrimaryGreen, adobergb.PrimaryBlue, adobergb.StandardWhitePoint,
 		func(r, g, b float32) ciexyz.Color { return adobergb.ColorFromLinear(r, g, b).ToXYZ() },
-		func(c ciexyz.Color) (float32, float32, float32) { x := adobergb.ColorFromXYZ(c); return x.R, x.G, x.B }},
+		func(c ciexyz.Color) (float32, float32, float32) { x := adobergb.ColorFromXYZ(c); return x.R, x.G, x.B },
+		func(from ciexyz.Color, r, g, b float32) ciexyz.Color {
+			x := adobergb.ColorFromXYZ(from)
+			x.R, x.G, x.B = r, g, b
+			return x.ToXYZ()
+		}},
 	{"prophotorgb", prophotorgb.PrimaryRed, prophotorgb.PrimaryGreen, prophotorgb.PrimaryBlue, prophotorgb.StandardWhitePoint,
 		func(r, g, b float32) ciexyz.Color { return prophotorgb.ColorFromLinear(r, g, b).ToXYZ() },
 		func(c ciexyz.Color) (float32, float32, float32) {
 			x := prophotorgb.ColorFromXYZ(c)
 			return x.R, x.G, x.B
+		},
+		func(from ciexyz.Color, r, g, b float32) ciexyz.Color {
+			x := prophotorgb.ColorFromXYZ(from)
+			x.R, x.G, x.B = r, g, b
+			return x.ToXYZ()
 		}},
 	{"displayp3", displayp3.PrimaryRed, displayp3.PrimaryGreen, displayp3.PrimaryBlue, displayp3.StandardWhitePoint,
 		func(r, g, b float32) ciexyz.Color { return displayp3.ColorFromLinear(r, g, b).ToXYZ() },
-		func(c ciexyz.Color) (float32, float32, float32) { x := displayp3.ColorFromXYZ(c); return x.R, x.G, x.B }},
+		func(c ciexyz.Color) (float32, float32, float32) { x := displayp3.ColorFromXYZ(c); return x.R, x.G, x.B },
+		func(from ciexyz.Color, r, g, b float32) ciexyz.Color {
+			x := displayp3.ColorFromXYZ(from)
+			x.R, x.G, x.B = r, g, b
+			return x.ToXYZ()
+		}},
 }
 
 func writeSpaces(dir string) error {
@@ -102,8 +125,8 @@ func matrixCmd(args []string) error {
 		return err
 	}
 	rng := rand.New(rand.NewSource(*seed))
-	lat := func(n int) []float32 { // n points over [-1, 2], multiples of 1/8 where possible
-		var out []float32
+	lat := func(n int) []float32 { // n points over [-1, 2] (multiples of 2^-10), plus 0 and 1: the faces of the unit cube
+		out := []float32{0, 1}
 		for i := 0; i < n; i++ {
 			v := -1 + 3*float64(i)/float64(n-1)
 			out = append(out, float32(math.Round(v*1024)/1024))
@@ -137,6 +160,9 @@ func matrixCmd(args []string) error {
 				v := []dy{obsv(float64(a)), obsv(float64(b)), obsv(float64(c))}
 				x := sp.toXYZ(a, b, c)
 				sink.put(dy{"kind": "lin", "space": sp.name, "v": v, "o": obs3(x.X, x.Y, x.Z)})
+				// the same components in a value that came out of ColorFromXYZ (of the white point / of this triple)
+				xv := sp.toXYZvia(ciexyz.Color{X: 0.9, Y: 1, Z: 0.8}, a, b, c)
+				sink.put(dy{"kind": "lin", "space": sp.name, "route": "fromxyz-then-set", "v": v, "o": obs3(xv.X, xv.Y, xv.Z)})
 				// RGB -> XYZ -> RGB
 				r2, g2, b2 := sp.fromXYZ(x)
 				sink.put(dy{"kind": "rt", "space": sp.name, "dir": "rgb", "v": v, "o": obs3(r2, g2, b2)})
